@@ -5,11 +5,19 @@
 //! Reference (from the statement only): snapshot get_all_facts() before the call; if the call returns Ok with provable == false, the
 //! snapshot taken after the call must be equal.  Calls that return Err or panic report nothing and are skipped.
 //!
-//!   c10_failed_query_search          every rule set of <= 3 rules out of a pool of 14 Horn-style rules (plus hand-picked sets of 4), two
-//!                                    field namings, 4 start states, every atomic goal, DFS / BFS / iterative, max_depth 0..4
-//!   c10_failed_query_after_success   the same engine and facts asked TWO queries in a row: the first may succeed (and keep what it
-//!                                    derived); if the second is reported not provable the facts must equal what they were between
-//!                                    the two calls (an undo frame left open by the first call must not matter)
+//! One witness per search strategy (the three strategies are three different code paths):
+//!   c10_failed_query_search_{dfs,iterative,bfs}
+//!        every rule set of <= 3 rules out of a pool of 15 Horn-style rules (And / Or conditions, shared sub-goals, a dead end, a cycle,
+//!        wrong-value conclusions, action lists that fail part-way after a Set) plus 8 hand-picked sets of 4; two field namings; up to
+//!        5 start states; the 4 atomic goals P/Q/G == true, G == false; max_depth 0..4; (dfs: also max_solutions 3 on the sets of 1, 2, 4)
+//!   c10_failed_query_after_success_{dfs,iterative,bfs}
+//!        the same engine and the same facts asked TWO queries in a row: if the first is provable (it keeps what it derived, and the
+//!        depth-first search leaves its undo frame open) and the second is reported not provable, the facts must equal what they
+//!        were between the two calls
+//!   c10_bfs_failed_query_keeps_rule_effects
+//!        fixed history, NEW FINDING on the current tree: BreadthFirstSearch::search_with_execution opens no undo frame at all, so a
+//!        candidate rule that fires but concludes the wrong value leaves its assignment in the caller's facts although the query is
+//!        reported not provable (the two *_bfs searches reproduce for the same reason until that is repaired)
 use rust_rule_engine::backward::{BackwardConfig, BackwardEngine, SearchStrategy};
 use rust_rule_engine::{ActionType, Condition, ConditionGroup, Facts, KnowledgeBase, Operator, Rule, Value};
 use std::collections::HashMap;
